@@ -14,6 +14,7 @@ import Mathlib.LinearAlgebra.Matrix.PosDef
 import Mathlib.LinearAlgebra.Matrix.Block
 import Mathlib.LinearAlgebra.Matrix.NonsingularInverse
 import Mathlib.Algebra.Order.Star.Real
+import Mathlib.LinearAlgebra.Matrix.ToLinearEquiv
 import EasyMl.Model.Decomp
 import EasyMl.Lemmas.RealModel
 
@@ -1597,5 +1598,128 @@ theorem ldlt_present_aux {A : Matrix ℝ} (hsq : A.rows = A.columns)
   exact ⟨L, D, h1⟩
 
 end pivots
+
+/-! ### full column rank: no reflection of the QR run meets a zero column -/
+
+section rank
+open scoped EasyMl.RealModel
+
+/-- A real matrix whose first `c+1` columns vanish from row `c` downwards has a non-trivial
+    kernel. -/
+theorem exists_kernel_of_zero_block {M N c : ℕ} (R : _root_.Matrix (Fin M) (Fin N) ℝ) (hcN : c < N)
+    (hcM : c < M)
+    (hz : ∀ (i : Fin M) (j : Fin N), (j : ℕ) ≤ c → c ≤ (i : ℕ) → R i j = 0) :
+    ∃ y : Fin N → ℝ, y ≠ 0 ∧ R.mulVec y = 0 := by
+  -- the leading (c+1)×(c+1) block has a zero last row
+  let B : _root_.Matrix (Fin (c + 1)) (Fin (c + 1)) ℝ :=
+    fun i j => R ⟨i, by have := i.isLt; omega⟩ ⟨j, by have := j.isLt; omega⟩
+  have hdet : B.det = 0 := by
+    apply Matrix.det_eq_zero_of_row_eq_zero (⟨c, Nat.lt_succ_self c⟩ : Fin (c + 1))
+    intro j
+    exact hz _ _ (by have := j.isLt; simp; omega) (by simp)
+  obtain ⟨y, hy0, hy⟩ := Matrix.exists_mulVec_eq_zero_iff.mpr hdet
+  let yy : ℕ → ℝ := fun j => if h : j < c + 1 then y ⟨j, h⟩ else 0
+  refine ⟨fun j => yy j, ?_, ?_⟩
+  · intro h
+    apply hy0
+    funext j
+    have := congrFun h ⟨j, by have := j.isLt; omega⟩
+    simp only [yy, Pi.zero_apply] at this
+    rw [dif_pos j.isLt] at this
+    simpa using this
+  · funext i
+    simp only [Matrix.mulVec, dotProduct, Pi.zero_apply]
+    -- sum over Fin N → range N → range (c+1)
+    let f : ℕ → ℝ := fun j => (if h : j < N then R i ⟨j, h⟩ else 0) * yy j
+    have h1 : ∑ j : Fin N, R i j * yy j = ∑ j ∈ range N, f j := by
+      rw [← Fin.sum_univ_eq_sum_range f N]
+      apply Finset.sum_congr rfl
+      intro j _
+      simp only [f]
+      rw [dif_pos j.isLt]
+    have h2 : ∑ j ∈ range N, f j = ∑ j ∈ range (c + 1), f j := by
+      symm
+      apply sum_subset (range_subset_range.mpr (by omega))
+      intro j _ hj
+      have : ¬ j < c + 1 := fun hh => hj (mem_range.mpr hh)
+      simp only [f, yy]
+      rw [dif_neg this, mul_zero]
+    rw [h1, h2]
+    by_cases hic : (i : ℕ) < c + 1
+    · -- a row of the block: `(B y)_i = 0`
+      have hB := congrFun hy ⟨i, hic⟩
+      simp only [Matrix.mulVec, dotProduct, Pi.zero_apply] at hB
+      rw [← hB, ← Fin.sum_univ_eq_sum_range f (c + 1)]
+      apply Finset.sum_congr rfl
+      intro j _
+      simp only [f, yy, B]
+      rw [dif_pos (by have := j.isLt; omega), dif_pos j.isLt]
+    · apply sum_eq_zero
+      intro j hj
+      have hjc := mem_range.mp hj
+      simp only [f]
+      rw [dif_pos (by omega), hz i ⟨j, by omega⟩ (by simp; omega) (by omega), zero_mul]
+
+
+/-- the state of the QR loop after `c` iterations -/
+noncomputable def qrState (A : Matrix ℝ) (c : ℕ) : Option (Matrix ℝ) × Matrix ℝ :=
+  foldRange c (fun c s => qrStep A.rows c s) (none, ofFn A.rows A.columns (get A))
+
+theorem qrState_inv (A : Matrix ℝ) (c : ℕ) (hc : c ≤ A.rows) :
+    QrInv A.rows A.columns (toMat A.rows A.columns A) (qrState A c) ∧
+      UpperUpTo A.rows A.columns c (qrState A c).2 := by
+  unfold qrState
+  have h0 : QrInv A.rows A.columns (toMat A.rows A.columns A) (none, ofFn A.rows A.columns (get A)) := by
+    refine ⟨shaped_ofFn _ _ _, ?_, ?_, ?_⟩
+    · intro q hq; cases hq
+    · simp only [qMat, Matrix.one_mul]
+      ext i j
+      rw [toMat_apply, toMat_apply, get_ofFn _ _ _ _ _ i.isLt j.isLt]
+    · simp [qMat]
+  have h0' : UpperUpTo A.rows A.columns 0 (ofFn A.rows A.columns (get A)) :=
+    ⟨shaped_ofFn _ _ _, fun i j _ _ hj _ => by omega⟩
+  exact foldRange_inv
+    (fun k s => QrInv A.rows A.columns (toMat A.rows A.columns A) s ∧ UpperUpTo A.rows A.columns k s.2)
+    (fun c s => qrStep A.rows c s) c _ ⟨h0, h0'⟩
+    (fun k t hk hP => by
+      refine ⟨qrStep_inv hP.1 (by omega), ?_⟩
+      have hR' : (qrStep A.rows k t).2 = matMul (reflection A.rows k t.2) t.2 := by
+        obtain ⟨q, r⟩ := t
+        cases q <;> rfl
+      rw [hR']
+      exact qrStep_upper hP.2 (by omega))
+
+/-- **With linearly independent columns no reflection meets a zero column**: the column the
+    `c`-th reflection is built from has a non-zero entry. -/
+theorem qr_column_ne_zero (A : Matrix ℝ)
+    (hinj : Function.Injective (toMat A.rows A.columns A).mulVec) (c : ℕ)
+    (hcM : c < A.rows) (hcN : c < A.columns) :
+    ∃ k, ((List.range (A.rows - c)).map fun t => get (qrState A c).2 (c + t) c).getD k 0 ≠ 0 := by
+  obtain ⟨hinv, hup⟩ := qrState_inv A c (le_of_lt hcM)
+  by_contra hall
+  push Not at hall
+  set r := (qrState A c).2 with hr
+  set Qm := qMat A.rows (qrState A c).1 with hQ
+  -- column `c` vanishes from row `c` downwards
+  have hcol : ∀ i, c ≤ i → i < A.rows → get r i c = 0 := by
+    intro i hci hi
+    have := hall (i - c)
+    rw [List.getD_eq_getElem?_getD, List.getElem?_map, List.getElem?_range (by omega)] at this
+    simpa [show c + (i - c) = i by omega] using this
+  have hz : ∀ (i : Fin A.rows) (j : Fin A.columns), (j : ℕ) ≤ c → c ≤ (i : ℕ) →
+      toMat A.rows A.columns r i j = 0 := by
+    intro i j hjc hci
+    rw [toMat_apply]
+    by_cases hj : (j : ℕ) = c
+    · rw [hj]; exact hcol i hci i.isLt
+    · exact hup.2 i j i.isLt j.isLt (by omega) (by omega)
+  obtain ⟨y, hy0, hy⟩ := exists_kernel_of_zero_block (toMat A.rows A.columns r) hcN hcM hz
+  -- `A y = Q (R y) = 0`
+  have hprod : Qm * toMat A.rows A.columns r = toMat A.rows A.columns A := hinv.product
+  have hAy : (toMat A.rows A.columns A).mulVec y = 0 := by
+    rw [← hprod, ← Matrix.mulVec_mulVec, hy, Matrix.mulVec_zero]
+  exact hy0 (hinj (by rw [hAy, Matrix.mulVec_zero]))
+
+end rank
 
 end EasyMl.Decomp
